@@ -1,7 +1,7 @@
 (** Correspondence and monitor definitions for C16, evaluated by [vm_compute] on the cases the harness
     (harness/cmd/c16) ran on the real stack (no proofs here). *)
 From Coq Require Import List ZArith Bool.
-From Teleport Require Import Base.Bytes Base.Outcome Model.Ics20.
+From Teleport Require Import Base.Bytes Base.Outcome Model.Ics20 Model.Ics20Transfer.
 Import ListNotations.
 Local Open Scope Z_scope.
 
@@ -24,6 +24,14 @@ Record coreobs := {
 
 Record cbobs := { cb_bare : nat; cb_stack : nat; cb_same : bool }.
 
+(** what the concrete model of the transfer application needs (bare run): parameters and the funds of the credited
+    denomination held by the channel escrow and the transfer module account, and its supply, before / after *)
+Record trobs := {
+  tr_recv_blocked : bool; tr_recv_enabled : bool; tr_denom_ok : bool;
+  tr_escrow : bytes; tr_tmodule : bytes;
+  tr_pre_esc : Z; tr_pre_tmod : Z; tr_pre_supply : Z;
+  tr_post_esc : Z; tr_post_tmod : Z; tr_post_supply : Z }.
+
 Record case := {
   k_pkt : packet;
   (* oracle values: the real library functions on this packet *)
@@ -42,7 +50,11 @@ Record case := {
   k_pre : snap;
   (* the three runs *)
   k_bare : callobs; k_stack : callobs; k_core : coreobs;
-  k_ackcb : cbobs; k_tocb : cbobs }.
+  k_ackcb : cbobs; k_tocb : cbobs;
+  (* Keeper.OnRecvPacket called directly on the state before the packet with an acknowledgement of the harness *)
+  k_hook : callobs; k_hook_ack : bytes;
+  k_tr : trobs;
+  k_mods_blocked : bool }.               (* bank.BlockedAddr(aggregate module) && bank.BlockedAddr(transfer module) *)
 
 Fixpoint lookup (t : list (bytes * bytes)) (x : bytes) : option bytes :=
   match t with [] => None | (k, v) :: t' => if bytes_eqb k x then Some v else lookup t' x end.
@@ -87,6 +99,28 @@ Definition m_middleware (k : case) :=
 
 Definition Zeqb := Z.eqb.
 
+(** the keeper hook alone, on the state before the packet, with the harness' own (successful) acknowledgement *)
+Definition m_hook (k : case) :=
+  hook cstate (sha_of k) (fun _ => k_decoded k) (fun _ => k_amount k) (fun _ => k_recv k)
+       c_is_registered (convert_coin (k_module k)) (pre_state k) (k_pkt k)
+       {| ack_success := true; ack_bytes := k_hook_ack k |}.
+
+(** the concrete transfer application on the funds of the credited denomination *)
+Definition tr_state (k : case) : cstate :=
+  let g := k_got_denom k in let r := recv_of k in let t := k_tr k in
+  {| c_enabled := true; c_denom_idx := []; c_erc20_idx := []; c_pairs := [];
+     c_bank := [((r, g), sn_recv_got (k_pre k)); ((tr_escrow t, g), tr_pre_esc t); ((tr_tmodule t, g), tr_pre_tmod t)];
+     c_supply := [(g, tr_pre_supply t)];
+     c_tokens := []; c_tok_total := []; c_code := [];
+     c_blocked := if tr_recv_blocked t then [r] else [];
+     c_send_disabled := [] |}.
+
+Definition m_transfer (k : case) :=
+  let t := k_tr k in
+  ctransfer (sha_of k) (fun _ => k_decoded k) (fun _ => k_amount k) (fun _ => k_recv k) (fun _ => tr_denom_ok t)
+            (fun _ => co_ack (k_bare k)) (tr_recv_enabled t) (tr_tmodule t) (fun _ _ => tr_escrow t)
+            (tr_state k) (k_pkt k).
+
 (** the funds part of a model state against an observed snapshot *)
 Definition funds_match (k : case) (s : cstate) (o : snap) : bool :=
   let d := k_hook_denom k in let r := recv_of k in let c := k_contract k in let M := k_module k in
@@ -105,7 +139,11 @@ Definition opt_status (p : option hook_path) : nat := match p with Some h => pat
 (** ** Model vs implementation.  Kinds:
     1 stack outcome class, 2 returned acknowledgement, 3 hook event status, 4 funds after the stack,
     5 registry after the stack, 6 core outcome class, 7 stored acknowledgement, 8 funds/registry after core,
-    9 IBCDenom transcription, 10 received-denomination transcription, 11 sha table miss, 12 BytesToAddress *)
+    9 IBCDenom transcription, 10 received-denomination transcription, 11 sha table miss, 12 BytesToAddress,
+    13 the model of ibc-go's transfer application (Model/Ics20Transfer.v) vs the bare module: class, success flag,
+       bytes of the result acknowledgement, funds of the credited denomination (receiver, channel escrow, transfer
+       module account, supply),
+    14 the keeper hook called directly vs the model's [hook]: class, returned acknowledgement, status, funds, registry *)
 Definition cmp_case (k : case) : list nat :=
   let pkt := k_pkt k in
   let e9 := match k_decoded k with
@@ -149,7 +187,37 @@ Definition cmp_case (k : case) : list nat :=
     | Err => if Nat.eqb (cr_class co) 1 then [] else [6%nat]
     | Panic => if Nat.eqb (cr_class co) 2 then [] else [6%nat]
     end in
-  e9 ++ e12 ++ estack ++ ecore.
+  let b := k_bare k in
+  let etr :=
+    match m_transfer k with
+    | Ok (s', a) =>
+        if negb (Nat.eqb (co_class b) 0) then [13%nat] else
+        let g := k_got_denom k in let t := k_tr k in
+        if Bool.eqb (ack_success a) (co_ack_ok b) && bytes_eqb (ack_bytes a) (co_ack b) &&
+           (match g with
+            | [] => true
+            | _ => (bal s' (recv_of k) g =? sn_recv_got (co_post b)) && (bal s' (tr_escrow t) g =? tr_post_esc t) &&
+                   (bal s' (tr_tmodule t) g =? tr_post_tmod t) && (get1 (c_supply s') g =? tr_post_supply t)
+            end)
+        then [] else [13%nat]
+    | Err => [13%nat]
+    | Panic => if Nat.eqb (co_class b) 2 then [] else [13%nat]
+    end in
+  let h := k_hook k in
+  let ehook :=
+    match m_hook k with
+    | Ok (s', oa, hp) =>
+        if negb (Nat.eqb (co_class h) 0) then [14%nat] else
+        if (match oa with
+            | None => co_ack_nil h
+            | Some a => negb (co_ack_nil h) && Bool.eqb (ack_success a) (co_ack_ok h) && bytes_eqb (ack_bytes a) (co_ack h)
+            end) &&
+           Nat.eqb (path_status hp) (co_status h) && funds_match k s' (co_post h) && registry_match k s' (co_post h)
+        then [] else [14%nat]
+    | Err => [14%nat]
+    | Panic => if Nat.eqb (co_class h) 2 then [] else [14%nat]
+    end in
+  e9 ++ e12 ++ estack ++ ecore ++ etr ++ ehook.
 
 Fixpoint number {A} (i : nat) (l : list A) : list (nat * A) :=
   match l with [] => [] | x :: l' => (i, x) :: number (S i) l' end.
@@ -200,8 +268,12 @@ Definition full_conversion_obs (owner : nat) (same : bool) (a : Z) (b s : snap) 
     41 full conversion credited an EVM address that is not the receiver's own (receiver address is not 20 bytes)
     51 oracle hypothesis: the wrapped application acknowledged success for undecodable data / bad amount / bad receiver
     52 oracle hypothesis: a successful non-returning receive did not credit exactly the amount (or touched the registry)
+    53 hypothesis of the atomicity / end-to-end theorems: the aggregate or the transfer module account is not a blocked address
     61 OnAcknowledgementPacket of the stack differs from the wrapped application's
-    62 OnTimeoutPacket of the stack differs from the wrapped application's *)
+    62 OnTimeoutPacket of the stack differs from the wrapped application's
+    71 the keeper hook, called directly, returned nil or an acknowledgement other than the one it was given
+    72 the keeper hook, called directly, left funds that are neither those before the call nor a full conversion of
+       exactly the packet amount (or changed the registry of a live contract without converting) *)
 Definition mon_case (k : case) : list nat :=
   let b := k_bare k in let s := k_stack k in let c := k_core k in
   let same_acc := bytes_eqb (recv_of k) (k_module k) in
@@ -249,7 +321,21 @@ Definition mon_case (k : case) : list nat :=
   let t6 :=
     (if Nat.eqb (cb_bare (k_ackcb k)) (cb_stack (k_ackcb k)) && cb_same (k_ackcb k) then [] else [61%nat]) ++
     (if Nat.eqb (cb_bare (k_tocb k)) (cb_stack (k_tocb k)) && cb_same (k_tocb k) then [] else [62%nat]) in
-  t1 ++ t2 ++ t3 ++ t5 ++ t6.
+  let h := k_hook k in
+  let t7 :=
+    if negb (Nat.eqb (co_class h) 0) then [] else
+    (if negb (co_ack_nil h) && co_ack_ok h && bytes_eqb (co_ack h) (k_hook_ack k) then [] else [71%nat]) ++
+    let p := k_pre k in let q := co_post h in
+    let untouched := snap_funds_eqb p q in
+    let full := match k_amount k with
+                | Some a => full_conversion_obs (k_owner k) same_acc a p q
+                | None => false
+                end in
+    if (untouched && (negb (k_alive k) || (Bool.eqb (sn_indexed p) (sn_indexed q) && Bool.eqb (sn_pair p) (sn_pair q))))
+       || (full && Nat.eqb (length (recv_of k)) 20)
+    then [] else [72%nat] in
+  let t8 := if k_mods_blocked k then [] else [53%nat] in
+  t1 ++ t2 ++ t3 ++ t5 ++ t6 ++ t7 ++ t8.
 
 Definition monitor_failures (ks : list case) : list (nat * (nat * nat)) :=
   flat_map (fun ik => map (fun m => (fst ik, (0%nat, m))) (mon_case (snd ik))) (number 0 ks).
